@@ -6,7 +6,11 @@ spec/Lexer.tla (operational).  TLC checks C11_NormalizeAgrees,
 C11_PlainVerbatim, C11_CommentsSilent, C11_RawVerbatim (and the C12 / C39
 invariants) and prints the expected rendering of every case; every case is
 rendered by the real jinja2 in every newline_sequence / keep_trailing_newline
-combination.
+combination, under environments with finalize hooks of every calling
+convention and autoescape (LexerRules!Printed: they act on variable tags only).
+spec/LexerShare.tla: lazy token streams of several environments over shared
+lexers (C11_OwnNewlineSettings); TLC enumerates every interleaving, run_share
+replays each on real Parser / Environment.lex objects.
 """
 from __future__ import annotations
 
